@@ -69,7 +69,13 @@ def members_of(spec: str, meta):
 
 
 CHAINS = [["LZMA2"], ["COPY"], ["LZMA"], ["BZIP2"], ["DEFLATE"], ["DEFLATE64"], ["ZSTD"], ["PPMD"], ["BROTLI"], ["X86", "LZMA"], ["X86", "LZMA2"],
-          ["DELTA", "LZMA2"], ["ARM", "COPY"], ["SPARC", "BZIP2"], ["LZMA2", "AES"], ["COPY", "AES"], ["AES"], ["X86", "DEFLATE", "AES"]]
+          ["DELTA", "LZMA2"], ["ARM", "COPY"], ["SPARC", "BZIP2"], ["LZMA2", "AES"], ["COPY", "AES"], ["AES"], ["X86", "DEFLATE", "AES"],
+          ["ZSTD/frames=3"]]  # a Zstandard stream of several frames (multi-threaded encoders)
+
+
+def _coder(c):
+    name, _, par = c.partition("/")
+    return (name, {k: int(v) for k, v in (x.split("=") for x in par.split(",") if x)})
 HEADERS = ["raw", "lzma", "lzma2", "copy", "aes", "lzma2+aes"]
 METAS = [None, ("mtime",), ("attr",), ("ctime", "atime"), ("mtime", "attr", "ctime", "atime"), ("winattr",)]
 
@@ -92,7 +98,7 @@ def build_case(ch: explore.Chooser, spec: str):
         folders.insert(min(k, len(folders)), [])
     chain = ch.pick(CHAINS, "chain")
     per_folder_alt = ch.choose(2, "second-folder-other-chain") if len(folders) > 1 else 0
-    chains_ = [[(c, {}) for c in chain] for _ in folders]
+    chains_ = [[_coder(c) for c in chain] for _ in folders]
     if per_folder_alt:
         chains_[1] = [("COPY", {})] if chain != ["COPY"] else [("LZMA2", {})]
     L["folders"] = folders
